@@ -103,6 +103,10 @@ def probe_portfolio(spec):
             o['duals'] = dump_duals(res.duals)
             try:
                 o['out'] = tables(portf, op, res)
+                if opts.get('extract_twice'):
+                    # the result object is decoded a second time (e.g. once plain, once with the input prices): same tables expected
+                    o['out_first'] = o['out']
+                    o['out'] = tables(portf, op, res)
             except Exception as e:
                 o['out'] = None
                 o['out_error'] = repr(e)[:300]
@@ -308,7 +312,7 @@ def _dump_translation(seen):
 
 # ------------------------------------------------------------------ C18: nodal prices
 def probe_prices(spec):
-    o = probe_portfolio(dict(spec, opts=dict(spec.get('opts', {}), split=None)))
+    o = probe_portfolio(dict(spec, opts=dict(spec.get('opts', {}), extract_twice=True)))
     if o.get('status') != 'ok' or o.get('solve') != 'optimal' or not o.get('duals'):
         return o
     portf = mk_portfolio(spec)
